@@ -81,7 +81,8 @@ func (r *REPL) Run(line string) error {
 	}
 	// need +"\n" because "single" expects \n terminated input
 	toCompile := r.previous + string(line)
-	if toCompile == "" {
+	if strings.TrimSpace(toCompile) == "" {
+		// nothing but white space typed at the normal prompt
 		return nil
 	}
 	code, err := py.Compile(toCompile+"\n", r.prog, py.SingleMode, 0, true)
